@@ -361,6 +361,8 @@ Fixpoint ins_tick (e : ped) (l : list ped) : list ped :=
 Fixpoint sort_tick (l : list ped) : list ped :=
   match l with [] => [] | x :: r => ins_tick x (sort_tick r) end.
 
+Definition tick_le (a b : ped) : Prop := ped_tick a <= ped_tick b.
+
 Definition ped_lines (ppq mpq : Z) (cs : list ctrl) : list ped :=
   sort_tick (flat_map (ped_of ppq mpq) cs).
 
